@@ -61,6 +61,47 @@ pub fn tag_len_grid(out: &mut Vec<String>) {
 
 /// text that grows when decoded: long runs of bytes that are not UTF-8 (each becomes a 3-byte U+FFFD), for every
 /// string-carrying syntax, through the decoder and as a message (the result is displayed and re-encoded)
+/// valid UTF-8 made of w-byte characters after `o` ASCII bytes: every byte offset T with (T - o) mod w != 0 falls
+/// inside a character, so between them the strings for all (w, o) put a character across every offset; through
+/// the value decoder (display, re-encode, clone …) and as value and name of a one-attribute message
+pub fn multibyte(out: &mut Vec<String>) {
+    let chars: [&[u8]; 3] = ["é".as_bytes(), "日".as_bytes(), "😀".as_bytes()];
+    for total in [300usize, 1500, 5000, 65535] {
+        for ch in chars {
+            let w = ch.len();
+            for o in 0..w {
+                let mut b: Vec<u8> = vec![b'a'; o];
+                while b.len() + w <= total {
+                    b.extend_from_slice(ch);
+                }
+                for tag in [0x41u8, 0x44, 0x30, 0x45, 0x42] {
+                    if total == 65535 && tag != 0x41 && tag != 0x44 {
+                        continue;
+                    }
+                    out.push(format!("decode_value {:02x} {}", tag, hex(&b)));
+                }
+                // with-language: language `en`, text of the same shape (inner lengths fit in the total)
+                let k = b.len().min(65000);
+                let t = &b[..if k > o { o + (k - o) / w * w } else { k }];
+                let mut wl = vec![0u8, 2, b'e', b'n'];
+                wl.extend_from_slice(&(t.len() as u16).to_be_bytes());
+                wl.extend_from_slice(t);
+                out.push(format!("decode_value 35 {}", hex(&wl)));
+                if total <= 5000 {
+                    // as value and as name of an attribute in a message
+                    let mut m = vec![1u8, 0x41];
+                    m.extend_from_slice(&(b.len() as u16).to_be_bytes());
+                    m.extend_from_slice(&b);
+                    m.extend_from_slice(&(b.len() as u16).to_be_bytes());
+                    m.extend_from_slice(&b);
+                    m.push(3);
+                    out.push(with_header(&m));
+                }
+            }
+        }
+    }
+}
+
 pub fn inflating(out: &mut Vec<String>) {
     for n in [21840usize, 21846, 32768, 65535] {
         for tag in [0x30u8, 0x41, 0x42, 0x44, 0x45, 0x46, 0x47, 0x48, 0x49, 0x4a, 0x2f] {
